@@ -506,6 +506,7 @@ def guard_fold(live: T, path: T, prompt: bool,
 
 def check(ctx):
     prog = ctx.prog
+    from ..known_functions import KNOWN_FUNCTIONS
     results = sweep(prog, "plain")
     ctx.analysed["functions_swept"] = len(results)
     _CHK_RESOLVER[0] = _find_chk_resolver(prog)
@@ -542,6 +543,13 @@ def check(ctx):
                        f"config edit helper (subject of C19)",
                        key=f"C17.1:exempt:{q}:{kind}", nontrivial=False,
                        path=fmt(p))
+                continue
+            if q not in KNOWN_FUNCTIONS and e.depth == 0 and any(
+                    c.data.get("inlined") and c.data.get("target") is not None
+                    and c.data["target"].qualname == q
+                    for r_ in results.values() for c in r_.of_kind("call")):
+                # a helper added later that the writers call: its sink is
+                # judged inside each caller, where it was looked through
                 continue
             if q in EXEMPT_FUNCS:
                 ctx.ob("C17.1", e, True, f"sink {kind} exempt: "
